@@ -1,5 +1,19 @@
 """C31 — Trustless gateway responses are verifiable and sufficient (spec/GatewayCar)."""
-import json
+import json, re
+
+
+def final_coverage_zero(out):
+    """TLC prints interim coverage every minute (BFS: Load/Finish are still 0 there); only the
+    LAST report counts.  Returns the actions with a zero count in the final report."""
+    blocks = out.split("The coverage statistics at ")
+    if len(blocks) < 2:
+        return ["<no coverage report>"]
+    zero = []
+    for m in re.finditer(r"^<(\w+) line \d+, col \d+ to line \d+, col \d+ of module \w+(?: \([\d ]+\))?>: (\d+):(\d+)",
+                         blocks[-1], re.M):
+        if int(m.group(3)) == 0:
+            zero.append(m.group(1))
+    return zero
 
 META = dict(
     spec="GatewayCar",
@@ -28,8 +42,12 @@ def run(ctx):
                        "computed in TLA+.  T: random trees (importer balanced/trickle, raw/pb leaves, HAMT fan-out 8, files <= 1 MiB) "
                        "with random scopes/ranges.  non-trivial = a (tree,path) whose requests have >= 3 distinct required block sets")
     # ---- M
-    ctx.tlc_mc("GatewayCar", "GatewayCar.tla", "MCGatewayCarQuick.cfg" if q else "MCGatewayCar.cfg",
-               timeout=300 if q else 2400, coverage=not q, allow_zero=())
+    res = ctx.tlc_mc("GatewayCar", "GatewayCar.tla", "MCGatewayCarQuick.cfg" if q else "MCGatewayCar.cfg",
+                     timeout=300 if q else 2400, coverage=not q, allow_zero=("Load", "Finish", "Next"))
+    if not q and res["ok"]:
+        z = final_coverage_zero(res["out"])      # vlib looks at every (also interim) report; judge the final one here
+        if z:
+            ctx.broken("vacuous: actions never taken in the final coverage report of MCGatewayCar.cfg: %s" % z)
     # ---- G
     behs = ctx.tlc_gen("GatewayCar", "GenGatewayCar.tla", "GenGatewayCarQuick.cfg" if q else "GenGatewayCar.cfg",
                        timeout=300 if q else 1200, workers=8)
@@ -54,17 +72,19 @@ def run(ctx):
             ctx.nontrivial("T:%s:%s:%s:%s" % (r["path"], r["from"], r["star"], r["to"]))
 
     def corrupt(rs):
-        # drop the last block of the first de-duplicated CAR with >= 3 blocks: its End must violate Sufficient
-        i = 0
-        while i < len(rs):
-            if rs[i]["ev"] == "Req" and not rs[i]["dups"]:
+        # the Dag event + the first de-duplicated CAR with >= 3 blocks, its last block dropped:
+        # the End event must violate Sufficient (short trace: the control costs one TLC start)
+        dag = None
+        for i, r in enumerate(rs):
+            if r["ev"] == "Dag":
+                dag = r
+            if r["ev"] == "Req" and not r["dups"]:
                 j = i + 1
                 while j < len(rs) and rs[j]["ev"] == "Block":
                     j += 1
                 if j - i - 1 >= 3 and j < len(rs) and rs[j]["ev"] == "End":
-                    bad = rs[:j - 1] + [rs[j]]
+                    bad = [dag] + rs[i:j - 1] + [rs[j]]
                     return bad, len(bad)
-            i += 1
         return None, None
     ctx.validate_trace("GatewayCar", "TraceGatewayCar.tla", "TraceGatewayCar.cfg", recs,
                        count_runs=lambda rs: sum(1 for r in rs if r["ev"] in ("Req", "Raw")),
